@@ -16,6 +16,8 @@ any flux function; `Driver/C04.lean` and `reflective_no_mass_energy` plug in C05
 * `reflectiveRight`, `ghostFaceFlux`, `doGhostFluxCalculation` — 553-696 with
   `ReflectiveHydroBoundary::get_right_state_flux_variables`
 * `doGradientCalculation`, `doGhostGradientCalculation` — 710-779
+* `slopeAlpha`, `applySlopeLimiter` — `Hydro::apply_slope_limiter` (782-851)
+* `predictRaw`, `predictPrimitive`  — `Hydro::predict_primitive_variables` (860-933)
 * `updateConserved`        — `HydroDensitySubGrid::update_conserved_variables` (153-201)
 * `setPrimitive`           — `Hydro::set_primitive_variables` (265-326), adiabatic (`γ > 1`) branch
 The grid level (`applyOp`, `hydroStep`) is in `Model/HydroStep.lean`.
@@ -294,6 +296,76 @@ def reflectiveRightGradient (i : Axis) (W : Q α) : Q α :=
 def doGhostGradientCalculation (i : Axis) (L : HV α) (dxinv : α) : HV α :=
   let Wr := reflectiveRightGradient i L.prim
   gradAddLeft i L (dwdx L.prim Wr dxinv) Wr
+
+/-! ### `Hydro::apply_slope_limiter` (782-851) -/
+
+/-- the factor `alpha` for one variable: `W` the cell value, `g` its gradient, `lo` / `hi` the
+running minimum / maximum of the neighbour values collected by the gradient sweeps
+(`Wlim[2i]`, `Wlim[2i+1]`), `dx` the three cell sizes (lines 807-832).  Second component: branch
+(1 `dwmax == 0`, 2 `dwmin == 0`; +4 `alpha` negative, +8 `alpha` clipped at 1). -/
+def slopeAlphaTag (dmax W : α) (g : V3 α) (lo hi : α) (dx : V3 α) : α × Nat :=
+  let e0 := g.x * 0.5 * dx.x
+  let e1 := g.y * 0.5 * dx.y
+  let e2 := g.z * 0.5 * dx.z
+  let dwmax := amax (W + e0) (W - e0)
+  let dwmin := amin (W + e0) (W - e0)
+  let dwmax := amax dwmax (W + e1)
+  let dwmin := amin dwmin (W + e1)
+  let dwmax := amax dwmax (W - e1)
+  let dwmin := amin dwmin (W - e1)
+  let dwmax := amax dwmax (W + e2)
+  let dwmin := amin dwmin (W + e2)
+  let dwmax := amax dwmax (W - e2)
+  let dwmin := amin dwmin (W - e2)
+  let dwmax := dwmax - W
+  let dwmin := dwmin - W
+  let z1 := feq dwmax 0.0
+  let maxfac := if z1 then dmax else (hi - W) / dwmax
+  let z2 := feq dwmin 0.0
+  let minfac := if z2 then dmax else (lo - W) / dwmin
+  let raw := 0.5 * amin maxfac minfac
+  let alpha := amin 1.0 raw
+  (alpha, (if z1 then 1 else 0) + (if z2 then 2 else 0) + (if alpha < 0.0 then 4 else 0)
+    + (if raw < 1.0 then 0 else 8))
+
+def slopeAlpha (dmax W : α) (g : V3 α) (lo hi : α) (dx : V3 α) : α :=
+  (slopeAlphaTag dmax W g lo hi dx).1
+
+/-- `state.primitive_gradients(i) *= alpha` for the five variables (line 833) -/
+def applySlopeLimiter (dmax : α) (h : HV α) (dx : V3 α) : Grad α :=
+  ⟨h.grad.d.smul (slopeAlpha dmax h.prim.d h.grad.d h.lo.d h.hi.d dx),
+   h.grad.vx.smul (slopeAlpha dmax h.prim.v.x h.grad.vx h.lo.v.x h.hi.v.x dx),
+   h.grad.vy.smul (slopeAlpha dmax h.prim.v.y h.grad.vy h.lo.v.y h.hi.v.y dx),
+   h.grad.vz.smul (slopeAlpha dmax h.prim.v.z h.grad.vz h.lo.v.z h.hi.v.z dx),
+   h.grad.e.smul (slopeAlpha dmax h.prim.e h.grad.e h.lo.e h.hi.e dx)⟩
+
+/-! ### `Hydro::predict_primitive_variables` (860-933) -/
+
+/-- the unclamped predicted density, velocity and pressure (lines 893-901) -/
+def predictRaw (g : α) (W : Q α) (G : Grad α) (a : V3 α) (dt : α) : Q α :=
+  let rho := W.d
+  let rhoinv := 1.0 / rho
+  let divv := G.vx.x + G.vy.y + G.vz.z
+  let rhoNew := rho - dt * (rho * divv + W.v.x * G.d.x + W.v.y * G.d.y + W.v.z * G.d.z)
+  let vNew : V3 α := ⟨W.v.x - dt * (W.v.x * divv + rhoinv * G.e.x - a.x),
+    W.v.y - dt * (W.v.y * divv + rhoinv * G.e.y - a.y),
+    W.v.z - dt * (W.v.z * divv + rhoinv * G.e.z - a.z)⟩
+  let pNew := W.e - dt * (g * W.e * divv + W.v.x * G.e.x + W.v.y * G.e.y + W.v.z * G.e.z)
+  ⟨rhoNew, vNew, pNew⟩
+
+/-- `predict_primitive_variables`: nothing happens for an empty cell (`rho == 0` or `1/rho`
+infinite); otherwise the prediction with density and pressure clamped at 0.  Tag: 0 empty,
+1 reciprocal overflows, 2 predicted; +4 density clamped, +8 pressure clamped. -/
+def predictPrimitiveTag (g ovf : α) (W : Q α) (G : Grad α) (a : V3 α) (dt : α) : Q α × Nat :=
+  if feq W.d 0.0 then (W, 0)
+  else if invOverflows ovf W.d then (W, 1)
+  else
+    let r := predictRaw g W G a dt
+    (⟨amax r.d 0.0, r.v, amax r.e 0.0⟩,
+      2 + (if r.d < 0.0 then 4 else 0) + (if r.e < 0.0 then 8 else 0))
+
+def predictPrimitive (g ovf : α) (W : Q α) (G : Grad α) (a : V3 α) (dt : α) : Q α :=
+  (predictPrimitiveTag g ovf W G a dt).1
 
 /-! ### per-cell updates -/
 
